@@ -366,6 +366,7 @@ def run(ctx, res):
     e2e = run_e2e(ctx, res, jinja2, dist, nontrivial)
     fb = run_filter_blocks(ctx, res, jinja2, dist, nontrivial)
     fb += run_envways(ctx, res, jinja2, dist)
+    fb += run_key_probe(ctx, res, jinja2, dist, nontrivial)
     res.coverage.update({
         "evaluations": evaluations + uz["evaluations"] + e2e["renders"] + dist.get("tojson-oracle", 0) + fb,
         "filter_block_renders": fb,
@@ -600,6 +601,45 @@ def run_e2e(ctx, res, jinja2, dist, nontrivial):
 
 
 # ---------------------------------------------------------------------------------------------------------------------------
+KEY_PROBE_CHARS = list(range(0, 33)) + [0x2f, 0x3e, 0x3d, 0x22, 0x27, 0x3c, 0x26, 0x7f, 0x85, 0xa0, 0x1680, 0x2000, 0x2028, 0x2029, 0x202f, 0x3000, 0xfeff]
+
+
+def run_key_probe(ctx, res, jinja2, dist, nontrivial):
+    """xmlattr keys containing every character of a systematic set (all ASCII control characters, space, / > = " ' < &, DEL, NEL,
+    NBSP and other Unicode spaces, line / paragraph separator, BOM), alone and embedded: whatever the filter ACCEPTS must render as
+    an attribute list by the HTML standard's attribute-name rule (Lean recogniser attrsStrictOK: tab, LF, FF, CR, space, / > = end a
+    name; that rule is fixed, not read from _attr_key_re, so a weakened key pattern is judged against the standard)."""
+    from jinja2 import nodes
+
+    env = jinja2.Environment(autoescape=True)
+    ec = nodes.EvalContext(env)
+    reqs, jobs = [], []
+    accepted = rejected = 0
+    for cp in KEY_PROBE_CHARS:
+        ch = chr(cp)
+        for key in (ch, "a" + ch + "b", ch + "a", "a" + ch, "class" + ch + "onclick"):
+            for autospace in (True, False):
+                try:
+                    out = str(env.call_filter("xmlattr", {key: "v", "z": 1}, (autospace,), eval_ctx=ec))
+                except ValueError:
+                    rejected += 1
+                    continue
+                except Exception as e:  # noqa
+                    res.violate("C24:xmlattr:key-probe-raised", f"xmlattr with key {key!r} raised {type(e).__name__}", {"key": key})
+                    continue
+                accepted += 1
+                reqs.append([Atom("c24"), Atom("attrs-strict"), out])
+                jobs.append((cp, key, autospace, out))
+    dist["xmlattr-key-probe"] = accepted + rejected
+    for (cp, key, autospace, out), rep in zip(jobs, core.driver_batch(reqs)):
+        nontrivial.add(("key-probe", key))
+        if rep[1] is not True:
+            res.violate(f"C24:xmlattr:key-char:U+{cp:04X}", f"xmlattr accepts the key {key!r} (contains U+{cp:04X}) and renders {out!r}: by the HTML "
+                        "standard's attribute-name rule this is not one attribute with that name (the character ends / splits the name)",
+                        {"key": key, "autospace": autospace, "out": out, "key_probe": True})
+    return accepted + rejected
+
+
 BLOCK_MODES = ["static", "select", "block", "volatile", "volatile_on", "static:async", "volatile:async"]
 
 
@@ -732,6 +772,13 @@ def run_envways(ctx, res, jinja2, dist):
 def replay(ctx, case):
     jinja2 = core.import_jinja()
     c = case["case"]
+    if c.get("key_probe"):
+        from jinja2 import nodes
+        env = jinja2.Environment(autoescape=True)
+        try:
+            return {"render": str(env.call_filter("xmlattr", {c["key"]: "v", "z": 1}, (c["autospace"],), eval_ctx=nodes.EvalContext(env)))}
+        except Exception as e:  # noqa
+            return {"raised": f"{type(e).__name__}: {e}"}
     if "scenario" in c:
         from harness.gen import autoesc_envways as W
         return [{"way": w, "autoescape": k, "name": n, "render": o, "fresh": f} for w, i, k, n, o, f in W.execute(jinja2, c["scenario"], c["data"])]
